@@ -31,7 +31,7 @@ import HealSparse.Lemmas.ApiDenseCov
 namespace HS
 namespace C11
 
-open ApiDense ApiDenseCov WFApi
+open ApiDense ApiDenseCov WFApi ApiBool ApiRanges
 
 /-! ### (1) the refinement -/
 
@@ -259,6 +259,57 @@ theorem dense_write_mask (d : DenseMapC) (k : Nat) :
         decide ((covRange d.c ab).1 ≤ k) && decide (k ≤ (covRange d.c ab).2)))) :=
   ⟨fun _ _ _ _ => rfl, fun _ _ _ => rfl, fun _ _ _ => rfl⟩
 
+/-- a `None`-clear never grows the mask -/
+theorem dense_clear_mask (d : DenseMapC) (k : Nat) (op : String) (pix : List Nat) (sg : Bool)
+    (R : List (Nat × Nat)) (sl : Bool) :
+    grown d (.upd op pix none sg) k = d.cov k ∧ grown d (.ranges op R none sl) k = d.cov k := by
+  constructor <;> simp [grown, growBy]
+
+/-- **a write line that is not answered `ok` changes nothing on the dense side** (values and
+    mask): the API functions are pure, a refused call stores nothing -/
+theorem dense_write_refused (D : DenseWorldC) (n : String) (d : DenseMapC) (req : WReq)
+    (h : (dRunReqC D n d req).2 ≠ "ok") : (dRunReqC D n d req).1 = D := by
+  cases req with
+  | bad s => rfl
+  | reject => rfl
+  | upd op pix vals single =>
+    simp only [dRunReqC] at h ⊢
+    cases hu : dUpdate d.toDense op pix vals single none with
+    | error e => rfl
+    | ok d' => rw [hu] at h; exact absurd rfl h
+  | ranges op R val sl =>
+    simp only [dRunReqC] at h ⊢
+    cases hu : dRanges d.toDense op R val sl with
+    | error e => rfl
+    | ok d' => rw [hu] at h; exact absurd rfl h
+
+/-- an accepted `update_values_pix` (pixel or range form) keeps the header, keeps every pixel it
+    does not address, and only ever GROWS the mask -/
+theorem dense_write_ok {D : DenseWorldC} {n : String} {d : DenseMapC} {req : WReq}
+    (hb : ∀ s, req ≠ .bad s) (h : (dRunReqC D n d req).2 = "ok") :
+    ∃ d', (dRunReqC D n d req).1 = D.bind n d' ∧ SameHdr d' d ∧
+      (∀ p, p ∉ req.pixels → d'.toDense.f p = d.toDense.f p) ∧
+      (∀ k, d'.cov k = grown d req k) ∧ (∀ k, d.cov k = true → d'.cov k = true) := by
+  have hmono : ∀ k, d.cov k = true → grown d req k = true := by
+    intro k hk; unfold grown; rw [hk]; rfl
+  cases req with
+  | bad s => exact absurd rfl (hb s)
+  | reject => exact absurd (show errLine .value = "ok" from h) (ApiScalar.errLine_ne_ok _)
+  | upd op pix vals single =>
+    simp only [dRunReqC] at h ⊢
+    cases hu : dUpdate d.toDense op pix vals single none with
+    | error e => rw [hu] at h; exact absurd h (ApiScalar.errLine_ne_ok e)
+    | ok d' =>
+      obtain ⟨a1, a2, a3, a4, a5⟩ := dUpdate_ok hu
+      exact ⟨_, rfl, ⟨a1, a2, a3, a4⟩, a5, fun _ => rfl, hmono⟩
+  | ranges op R val sl =>
+    simp only [dRunReqC] at h ⊢
+    cases hu : dRanges d.toDense op R val sl with
+    | error e => rw [hu] at h; exact absurd h (ApiScalar.errLine_ne_ok e)
+    | ok d' =>
+      obtain ⟨a1, a2, a3, a4, a5⟩ := dRanges_ok hu
+      exact ⟨_, rfl, ⟨a1, a2, a3, a4⟩, a5, fun _ => rfl, hmono⟩
+
 /-! ### (3) a history: the hypotheses are satisfiable, the answers are what the protocol answers
 
 Three boolean maps at 12 coverage pixels × 16 pixels: `a` ordinary, filled in coverage order
@@ -430,6 +481,75 @@ generators issue `bop` on boolean maps only (scalar operands go through `sop`). 
 
 #guard answers ["cfg i kind=plain dtype=i4 covord=0 spord=2", "bop i op=or const=T inplace=1"] ==
   ["ok", "err NotImplementedError"]
+
+/-! ### (5) the reachable invariant `World.Good` is needed for ONE line (not for histories)
+
+`rel_stepC` assumes `w.Good` besides `RelC w D`.  `RelC` says nothing of the typing of a map: a
+boolean map whose sentinel is the number 0 (not `KindOk`) is related to its dense map, yet its
+inverse — every cell a boolean, the overflow block included — is not well formed for that
+sentinel, so the worlds are no longer related after `inv`.  No history reaches such a world
+(`Good.runLines`), which is why the history-level theorems carry no hypothesis. -/
+
+/-- a boolean map whose sentinel is the NUMBER 0 (not `KindOk`; no history reaches it) -/
+def exIllTyped : MapObj :=
+  { covord := 0, spord := 0, kind := .plain .bool, sent := .num 0 0,
+    st := makeEmpty (cfgOf 0 0) ⟨.num 0 0, fun v => v != .num 0 0⟩ [] }
+
+theorem exIllTyped_corr : CorrC exIllTyped ⟨dEmpty exIllTyped, fun _ => false⟩ := by
+  refine ⟨⟨⟨Nat.le_refl _, ?_⟩, rfl, rfl, rfl, rfl, rfl, fun p _ => ?_⟩, fun k hk => ?_⟩
+  · exact inv_makeEmpty' _ _ [] List.nodup_nil (fun _ h => nomatch h)
+  · exact makeEmpty_abs' _ _ _ p
+  · exact (makeEmpty_covered _ _ [] List.nodup_nil k hk).trans (by simp)
+
+/-- at the API level: a related pair whose inverses are not related -/
+theorem corrC_alone_insufficient :
+    ∃ (m : MapObj) (d : DenseMapC), CorrC m d ∧ ¬ OutRelC m (apiInvert m) (dInv d) := by
+  refine ⟨exIllTyped, _, exIllTyped_corr, ?_⟩
+  rw [apiInvert_eq, if_pos (by rfl)]
+  unfold dInv
+  rw [if_pos (by rfl)]
+  intro h
+  have hwf : (exIllTyped.stored (ofBoolState (invertMap exIllTyped.c (toBoolState exIllTyped.st)))).WF :=
+    h.corr.wf
+  revert hwf
+  decide +kernel
+
+/-- **`RelC` alone is not preserved by `inv`**: related worlds that one `inv m inplace=1` line
+    leads to unrelated worlds -/
+theorem relC_alone_insufficient :
+    ∃ (w : World) (D : DenseWorldC) (a : Args), RelC w D ∧
+      ¬ RelC (stepArgs w "inv" a).1 (dstepArgsC D "inv" a).1 := by
+  refine ⟨({} : World).bind "m" exIllTyped,
+    DenseWorldC.bind [] "m" ⟨dEmpty exIllTyped, fun _ => false⟩, ⟨["m"], [("inplace", "1")]⟩,
+    relC_empty.bind "m" exIllTyped_corr, ?_⟩
+  intro h
+  have hflag : Args.flag ⟨["m"], [("inplace", "1")]⟩ "inplace" = true := by decide +kernel
+  have hm := h.maps "m"
+  have e1 : (stepArgs (({} : World).bind "m" exIllTyped) "inv" ⟨["m"], [("inplace", "1")]⟩).1
+      = (({} : World).bind "m" exIllTyped).bind "m"
+          (exIllTyped.stored (ofBoolState (invertMap exIllTyped.c (toBoolState exIllTyped.st)))) := by
+    show (opInv _ _).1 = _
+    unfold opInv withMap
+    simp only [ApiScalar.get?_bind_self, hflag, if_true, List.headD_cons]
+    rw [show ({ exIllTyped with view := none } : MapObj) = exIllTyped from rfl, apiInvert_eq,
+      if_pos (by rfl)]
+    show World.put (({} : World).bind "m" exIllTyped) "m" (exIllTyped.stored _) = _
+    exact World.put_eq_bind rfl
+  have e2 : (dstepArgsC (DenseWorldC.bind [] "m" ⟨dEmpty exIllTyped, fun _ => false⟩) "inv"
+      ⟨["m"], [("inplace", "1")]⟩).1.get? "m" = some ⟨{ dEmpty exIllTyped with f := invF ⟨dEmpty exIllTyped, fun _ => false⟩ }, fun _ => false⟩ := by
+    show (dInvOp _ _).1.get? "m" = _
+    unfold dInvOp dWithMapC
+    simp only [dgetC_bind_self, hflag, List.headD_cons]
+    unfold dInv
+    rw [if_pos (by rfl)]
+    simp only [if_true]
+    exact dgetC_bind_self _ _ _
+  rw [e1, e2] at hm
+  unfold World.bind at hm
+  simp only [raw?_eq, rawL_cons_self] at hm
+  have hwf := hm.corr.wf
+  revert hwf
+  decide +kernel
 
 end C11
 end HS
